@@ -1,7 +1,7 @@
 #!/bin/bash
 # pick_base.sh <patch> : prints the newest commit of /repo the patch applies to (HEAD first, then the commits at which
 # seeded changes were written). Later repairs may have touched the lines a seeded change edits.
-for B in HEAD 6080f6c d7e20d3 ad70f1c 458a2b8 3902211; do
+for B in HEAD 3575ab4 25b5dde 6080f6c d7e20d3 ad70f1c 458a2b8 3902211; do
   T=$(mktemp -d /tmp/pb-XXXXXX); git -C /repo archive $B | tar -x -C $T
   if (cd $T && git apply --check $1 2>/dev/null); then rm -rf $T; echo $B; exit 0; fi
   rm -rf $T
